@@ -67,12 +67,14 @@ Prefixes(len) ==
 (* validatePrefix: one of the six lengths; a /96 prefix must itself have u = 0 *)
 Legal(len, p) == len \in LegalLens /\ (len = 96 => p[U + 1] = 0)
 
-Embed(len, p, a) ==
-  [i \in 1..16 |->
-     IF i <= len \div 8 THEN p[i]
-     ELSE IF \E k \in 1..4 : V4PosAt(len, k) = i - 1
-            THEN a[CHOOSE k \in 1..4 : V4PosAt(len, k) = i - 1]
-            ELSE 0]
+(* octet i (1..16) of the embedding: prefix, then the IPv4 octets at their  *)
+(* positions, everything else (u, suffix) zero                              *)
+EmbedAt(len, p, a, i) ==
+  IF i <= len \div 8 THEN p[i]
+  ELSE IF \E k \in 1..4 : V4PosAt(len, k) = i - 1
+         THEN a[CHOOSE k \in 1..4 : V4PosAt(len, k) = i - 1]
+         ELSE 0
+Embed(len, p, a) == [i \in 1..16 |-> EmbedAt(len, p, a, i)]
 
 InPrefix(len, p, x) == \A i \in 1..(len \div 8) : x[i] = p[i]
 
@@ -169,8 +171,12 @@ ReservedZero == (Embedded /\ Clean) => v6[U + 1] = 0
 SuffixZero == (Embedded /\ Clean) => \A i \in Free(plen) : v6[i + 1] = 0
 PrefixKept == Embedded => InPrefix(plen, pfx, v6)
 AddrPlaced == (Embedded /\ Clean) => \A k \in 1..4 : v6[V4PosAt(plen, k) + 1] = addr[k]
-(* injectivity in the address, for the prefix at hand *)
-Injective == (phase = "embedded" /\ Clean) => \A b \in Addrs : (Embed(plen, pfx, b) = v6 => b = addr)
+(* injectivity in the address, for the prefix at hand: the embedding of any  *)
+(* other address differs from this one (at one of the IPv4 positions)       *)
+Injective ==
+  (phase = "embedded" /\ Clean) =>
+     \A b \in Addrs \ {addr} :
+        \E k \in 1..4 : EmbedAt(plen, pfx, b, V4PosAt(plen, k) + 1) # v6[V4PosAt(plen, k) + 1]
 (* the matching ip6.arpa name parses back to the address and maps to the same IPv4 *)
 ArpaRoundTrip == phase = "ptr" => FromArpa(arpa) = v6
 PtrBack == (phase = "ptr" /\ Clean) => target = InAddr(addr)
